@@ -216,7 +216,7 @@ def other_statements(src, names):
                 out.append("class %s:" % stmt.name)
                 done = False
                 for s2 in stmt.body:
-                    if not done and hit[1] in members(s2) and isinstance(s2, ast.FunctionDef):
+                    if not done and hit[1] in members(s2) and isinstance(s2, (ast.FunctionDef, ast.ClassDef)):
                         done = True
                         continue
                     out.append("  " + ast.dump(s2))
